@@ -486,3 +486,37 @@ pub fn depth_of(v: &Value) -> usize {
         _ => 0,
     }
 }
+
+/// Structural equality where integers must be identical and floats may differ
+/// by at most `ulps` units in the last place (the documented accuracy of the
+/// JSON reader the crate builds on).
+pub fn val_close(a: &Value, b: &Value, ulps: u64) -> bool {
+    match (a, b) {
+        (Value::Number(x), Value::Number(y)) => {
+            if is_integer_number(x) && is_integer_number(y) {
+                return x.to_string() == y.to_string();
+            }
+            match (x.as_f64(), y.as_f64()) {
+                (Some(p), Some(q)) => {
+                    if p == q {
+                        return true;
+                    }
+                    if p.is_sign_negative() != q.is_sign_negative() {
+                        return false;
+                    }
+                    let (i, j) = (p.abs().to_bits() as i128, q.abs().to_bits() as i128);
+                    (i - j).unsigned_abs() <= ulps as u128
+                }
+                _ => false,
+            }
+        }
+        (Value::Array(x), Value::Array(y)) => x.len() == y.len() && x.iter().zip(y).all(|(p, q)| val_close(p, q, ulps)),
+        (Value::Object(x), Value::Object(y)) => {
+            x.len() == y.len() && x.iter().zip(y.iter()).all(|((k1, p), (k2, q))| k1 == k2 && val_close(p, q, ulps))
+        }
+        (Value::Null, Value::Null) => true,
+        (Value::Bool(x), Value::Bool(y)) => x == y,
+        (Value::String(x), Value::String(y)) => x == y,
+        _ => false,
+    }
+}
